@@ -370,6 +370,10 @@ class PerceptionAnalyzerBase(ABC):
         if df is None:
             df = self.df
 
+        # NOTE: an empty table has no (index, side) MultiIndex to select from
+        if len(df) == 0:
+            return df
+
         df = df.xs("ground_truth", level=1)
         df = df[~df["status"].isnull()]
         for key, item in kwargs.items():
@@ -390,6 +394,10 @@ class PerceptionAnalyzerBase(ABC):
         """
         if df is None:
             df = self.df
+
+        # NOTE: an empty table has no (index, side) MultiIndex to select from
+        if len(df) == 0:
+            return df
 
         df = df.xs("estimation", level=1)
         df = df[~df["status"].isnull()]
